@@ -19,8 +19,38 @@ def run(ctx):
 
     conn_common.dedicated(ctx, "c09", [("MC_Connection_live.cfg" if ctx.quick else "MC_Connection_live_deep.cfg", {"coverage": False})], build)
     conn_common.run_general_property(ctx)
+    # the awaited operations above the connection (Bluetooth calls): whatever the device answers, they end with their
+    # result or a library error - a raw exception (attribute error, index error ...) or an operation that never ends is
+    # a violation of this property; the operation table itself is C16's business
+    from vf import sessionsim
+    from vf.props import sess_common
+
+    cross, special = sessionsim.c16_systematic()
+    cases = [(sess_common.CFGS[i % 2], s) for i, s in enumerate(special + rng_sample(cross, 300 if ctx.quick else 3000, ctx.seed))]
+    res = sess_common.run_family(ctx, "ble_ops", cases)
+    ctx.evaluations += res["n"]
+    ctx.distinct |= {("ble_ops", i) for i in range(res["n"])}
+    ctx.extra["reached_ble_ops"] = res["reach"]
+    for f in res["findings"]:
+        raw = any(str(d[1]).startswith("RAW:") for r in f["rows"] for d in r.get("dn", []))
+        if raw or f["fields"] == ["hang"] or f["cause"] == "idle":
+            ctx.violation(f"Session/ble_ops/{f['cause']}/{'+'.join(f['fields'])}", {"kind": "session-trace", "family": "ble_ops", **f})
+        else:
+            ctx.notes.append(f"operation-table mismatch (C16) seen in family ble_ops: {f['fields']}")
+    ctx.notes[:] = sorted(set(ctx.notes))[:20]
     ctx.assumptions.append("liveness is checked on the bounded connect slice only; on the real code 'never hangs' is the idle-row rule plus exact completion instants")
 
 
+def rng_sample(xs, n, seed):
+    import random
+
+    return random.Random(seed + 9).sample(xs, min(n, len(xs)))
+
+
 def replay(ctx, case):
+    if case.get("kind") == "session-trace":
+        from vf.props import sess_common
+
+        sess_common.replay(ctx, case)
+        return
     conn_common.replay_case(ctx, case)
